@@ -14,6 +14,15 @@ CLAIMED["C01"] = ("differential property testing against CPython 3.11 (type-dire
 CLAIMED["C05"] = ("generated-input validity checking (token soups, lexer corner cases, mutated corpus, raw bytes, nesting families) with a span well-formedness predicate and a dialect-monotonicity metamorphic relation; worker-process isolation for crashes",
     "Exploration: every generated text x dialect pair must parse to Ok/Err without crash; error and AST spans are checked by an independent visitor; wider dialects must accept the same tree.",
     "Trusts the harness's AST visitor (astx.rs) and the re-lex check for literal spans; 16 MiB worker stack.", "DESIGN.md §5 C05")
+CLAIMED["C09"] = ("algebraic-law property testing over representation classes (proptest-generated value sets; all ordered pairs/triples) + exhaustive numeric boundary grid",
+    "Exploration: reflexive/symmetric/transitive ==, hash/dict/set coherence (Rust-side hashes and in-language lookups below and above the index threshold), ordering laws and sort stability over generated value sets; every ordered pair of the numeric grid is enumerated each run.",
+    "Laws are taken from the property text; NaN == NaN per the Starlark spec quoted in float.rs.", "DESIGN.md §5 C09")
+CLAIMED["C10"] = ("differential testing against CPython integers (exhaustive boundary-grid pairs x operators x {folded, run time}) + random 256-bit operands; i128/BigInt range oracle for host conversions",
+    "Exploration with an exhaustively enumerated boundary grid: every operator on every ordered grid pair, literal and opaque operands, compared with CPython; random large operands, int(str, base), int(float), host alloc/unpack.",
+    "Trusts CPython int arithmetic (independent of num-bigint) and Rust's i128/TryFrom for host ranges.", "DESIGN.md §5 C10")
+CLAIMED["C12"] = ("exhaustive catalogue enumeration (kind x construct x mutation x alias x exit) against an explicit lock model, with proptest re-sampling for replay",
+    "Exploration, exhaustive over the depth<=3 catalogue: every attempt inside an iteration must fail and leave the container intact; the first mutation after any exit must succeed.",
+    "The model is the property text; which builtins hold the lock during callbacks was read from the stdlib sources.", "DESIGN.md §5 C12")
 NOT_YET = {}
 
 def main():
